@@ -1,5 +1,6 @@
 """C02 - energy flows balance at every time step and over every year."""
 import math
+import re
 import types
 from fractions import Fraction as F
 
@@ -359,6 +360,7 @@ CLAUSE_WHAT = {
                   '/ TargetHeat entry (injected + produced = simulated, auxiliary = max(0, target - simulated), total = produced + auxiliary)',
     'sutra-annual': 'SUTRA: an annual heat figure / PumpingkWh != sum of the power series over the 730 steps of that year x time step',
     'sutra-globals': 'SUTRA: SUTRATimeStep != T_end/len, number of years != round(T_end/8766), or max_peaking_boiler_demand != max annual auxiliary',
+    'first-law-efficiency': 'FirstLawEfficiency[t] x modelled heat towards electricity != NetElectricityProduced[t]',
     'power-plant': 'TenteringPP / injection temperature / ElectricityProduced / HeatExtracted / HeatProduced != the power-plant model '
                    '(etau and ReinjTemp correlations x availability x flow; topping split at the modelled ReinjTemp)',
 }
@@ -501,6 +503,10 @@ def run_terms(snap, years=None):
                  f'check_power_plant {T} p e {q(R.sp("ambient_temperature"))} {R.series("avail", R.sp("Availability"))} {q(n)} {q(m)} {q(cp)} '
                  f'{tprod} {q(tinj)} {q(R.sp("T_chp_bottom"))} {q(eff)} {q(R.sp("chp_fraction"))} {R.series("tpp", R.sp("TenteringPP"))} '
                  f'{el} {he} {hp} | _, _ => false end')
+        R.clause('first-law-efficiency',
+                 f'match plant_of_code {int(R.sp("plant_type")["int"])}%Z, enduse_of_code {eu}%Z with Some p, Some e => '
+                 f'check_fle {T} p e {q(R.sp("ambient_temperature"))} avail {q(n)} {q(m)} {q(cp)} {tprod} {q(tinj)} '
+                 f'{q(R.sp("T_chp_bottom"))} {q(eff)} {q(R.sp("chp_fraction"))} {net} {fle} | _, _ => false end')
         if eu in (41, 42):
             R.clause('bottoming', f'check_bottoming {T} {q(eff)} {q(n)} {q(m)} {q(cp)} {q(R.sp("T_chp_bottom"))} {tprod} {hp}')
         if eu in (51, 52):
@@ -631,8 +637,16 @@ def gen_runs(ctx):
     rnd = ctx.rng
     runs = [('corpus:' + p.name, p.read_text()) for p in sorted(CORPUS.glob('*.txt'))]
     # (the two SBT examples cost 10+ CPU-minutes each and add no plant class: left to the properties about the reservoir)
-    runs += [('example:' + name, text) for name, text in configs.example_texts(ctx, slow=not ctx.quick)
-             if not name.startswith('example_SBT')]
+    seen = set()
+    for name, text in configs.example_texts(ctx, slow=not ctx.quick):
+        if name.startswith('example_SBT'):
+            continue
+        # quick tier: one example per (end-use option, plant type) plus the add-on / S-DAC-GT ones; thorough tier: all
+        sig = tuple(re.findall(r'^(?:End-Use Option|Power Plant Type)\s*,\s*([^,\n]*)', text, re.M))
+        if ctx.quick and sig in seen and not re.search(r'addon|S-DAC', name, re.I):
+            continue
+        seen.add(sig)
+        runs.append(('example:' + name, text))
     if ctx.quick:       # the SUTRA storage plant (5 s): two of its years in the quick tier, all of them in the thorough tier
         runs.append(('example:SUTRAExample1.txt', (fw.REPO / 'tests' / 'examples' / 'SUTRAExample1.txt').read_text()))
     lives = [1, 2, 3, 7] if ctx.quick else [1, 2, 3, 7, 30, 100]
@@ -650,7 +664,7 @@ def gen_runs(ctx):
             opts = dict(addons=False, overpressure=False) if dh else _opts(rnd)
             runs.append((f'cell:eu{eu}:plant{pl}:{rep}:{len(runs)}',
                          _synthetic(rnd, life, tspy, enduse=eu, plant=pl, resmodel=resm, **opts)))
-    for i in range(ctx.n(8, 60)):     # long series, add-ons
+    for i in range(ctx.n(6, 60)):     # long series, add-ons
         eu = rnd.choice(configs.ENDUSES)
         pl = rnd.choice(configs.ELEC_PLANTS if eu != 2 else [5, 6, 9])
         runs.append((f'long:{i}', _synthetic(rnd, rnd.choice([10, 20, 30, 35] + ([] if ctx.quick else [60, 100])),
